@@ -59,3 +59,9 @@ def fill(claim, NA):
         "Trusted: CrossHair+z3 (finite selector space, completeness certified); contract stub of bs4 for the DFXP family (counterexamples replayed on the real bs4); deterministic stand-in for hash() inside pycaption.geometry. Other-process hash seeds are argued (no set iteration in writers), not executed.",
         "CrossHair symbolic execution + z3 over structure selectors",
     )
+    claim(
+        "C10",
+        "Bounded symbolic execution: results of any two of the pure-Python readers are isolated under five kinds of edit (and later reads unaffected), a used reader object reads like a fresh one (incl. SCC), and the SAMI language order equals the order of first appearance for every iteration order of any set the parser creates (set order made a solver-chosen permutation, which is what a different hash seed amounts to).",
+        "Trusted: CrossHair+z3; NondetSet as the model of hash-seed dependence; SAMI tokenizer/bs4/cssutils behind factory hooks; counterexamples replayed on real documents under real PYTHONHASHSEED values.",
+        "CrossHair symbolic execution + z3; set iteration order as solver-chosen permutation",
+    )
